@@ -10,7 +10,7 @@ from ..lang import CMP_OPS
 PROPERTY = "C03"
 LEVEL = "exploration"
 TIMEOUT = 240
-BUDGET = {"quick": 150, "thorough": 1500}
+BUDGET = {"quick": 600, "thorough": 3600}
 RULE = ("Seeded random programs with 1-3 `write(v, when=c)` cells (data: stateless expression of 1-3 inputs; "
         "enable: comparison / plain signal / depth-1 arithmetic; 1-4 readers of different kinds) compiled by the "
         "real compiler; the emitted blueprint is driven in the circuit model through input histories of 8-40 "
